@@ -252,18 +252,23 @@ func c10Value(t *rapid.T, tab *refbin.SymTab, textOK bool, depth int) model.Valu
 	return v
 }
 
-func genC10(t *rapid.T) C10Case {
+func genC10(t *rapid.T) C10Case { return c10History(t, true, true) }
+
+// c10History draws a history. undefinedIDs: symbols with unknown text may use
+// the ID of a placeholder slot (not only $0). allowError: the history may end
+// in an unresolvable import.
+func c10History(t *rapid.T, undefinedIDs, allowError bool) C10Case {
 	c := C10Case{Binary: gen.Chance(t, 50)}
 	c.Catalog = c10Catalog(t)
 	cat := refCatalog(c.Catalog)
 	ch := gen.RapidChooser{T: t}
 	enc := refbin.NewEnc(ch)
 	applyEncoderExclusions(enc)
-	enc.UndefinedSlots = true
+	enc.UndefinedSlots = undefinedIDs
 	pr := reftext.NewPrinter(ch)
 	applyPrinterExclusions(pr)
 	pr.SIDOneIn = 2
-	pr.UndefinedSlots = true
+	pr.UndefinedSlots = undefinedIDs
 	pr.Off["lst.declared"] = true
 	pr.Begin()
 	bin := append([]byte{}, refbin.IVM...)
@@ -291,7 +296,7 @@ func genC10(t *rapid.T) C10Case {
 				switch gen.Intn(t, 6) {
 				case 0:
 					// no max_id: legal only with an exact match
-					if exact == nil && !gen.Chance(t, 25) {
+					if exact == nil && !(allowError && gen.Chance(t, 25)) {
 						imp.MaxID = gen.Range(t, 0, 4)
 					}
 				case 1:
